@@ -77,6 +77,21 @@ func nondetInt() int {
 }
 func nondetBool() bool     { return verifNext("bool") == "true" }
 func nondetString() string { return verifNext("string") }
+func nondetText() string {
+	v := verifNext("string")
+	if len(v) > 3 && (v[0] == 's' || v[0] == 'S') && (v[1] == 't' || v[1] == 'T') && (v[2] == 'r' || v[2] == 'R') {
+		digits := true
+		for _, c := range v[3:] {
+			if c < '0' || c > '9' {
+				digits = false
+			}
+		}
+		if digits {
+			return " " + v + "\x01\"\\%d<\xff "
+		}
+	}
+	return v
+}
 func nondetBytes() []byte  { return []byte(verifNext("string")) }
 func verifAssume(c bool) {
 	if !c {
